@@ -763,7 +763,8 @@ def r06_13(ctx: Ctx, rule: str = "R06.13") -> None:
             incs = [n for n in walk(f.node) if isinstance(n, ast.AugAssign) and isinstance(n.target, ast.Name) and n.target.id == cur and isinstance(n.op, ast.Add)]
             def under_flag(node) -> bool:
                 return any(pol and isinstance(cd, ast.Subscript) and isinstance(cd.value, ast.Name) and cd.value.id in flags for cd, pol in q.facts_at(f, node))
-            ok = bool(incs) and all(under_flag(i) for i in incs) and under_flag(sub)
+            unit = all(isinstance(i.value, ast.Constant) and i.value.value == 1 for i in incs)
+            ok = bool(incs) and unit and all(under_flag(i) for i in incs) and under_flag(sub)
             ctx.check(ok, rule, f, sub, f"{f.qname}: compact CRC list indexed by a cursor that advances only for defined flags",
                       f"{f.qname}: `{norm(sub)}` indexes the compact list of stored CRCs (one entry per DEFINED flag) with `{cur}`, which does not advance exactly under a true "
                       "flag (it is the cursor of the flag vector): with a partially defined digest vector members get the wrong CRC or the header is refused with IndexError",
